@@ -11,7 +11,7 @@ EXTENDS Integers, Sequences, FiniteSets, TLC, Json, IOUtils
 CONSTANT NTraces
 Traces == JsonDeserialize(IOEnv.TRACE_FILE)
 
-L == INSTANCE RetryLoop WITH Classes <- {}, Outs <- {}, Durs <- {}, Rets <- {}, Advs <- {},
+L == INSTANCE RetryLoop WITH Classes <- {}, Outs <- {}, Durs <- {}, CDurs <- {}, EDurs <- {}, Rets <- {}, Advs <- {},
         Decs <- {}, BFaults <- {}, Ras <- {}, Modes <- {}, NRuns <- 1, RunGaps <- {}
 
 VARIABLES tid, l
